@@ -93,10 +93,19 @@ def one_dataset(args):
         tmin = 8.0
         pres, rec = HY.presentation(beh, dt, "UTC", P.epoch_of(2015, 9, 1))
         et = et_pattern(beh, pres, rec)
+        zero_et = bool(curvature) and idx % 8 == 2
+        if zero_et:
+            # no evapotranspiration during any recession (all of it falls on storm steps, gaps and margins):
+            # the average the simulation must use is exactly 0, the record's own mean is not
+            for k, pl in enumerate(beh["planted"]):
+                starts, _ = pres.layout(rec)
+                for a, z in pl["rec"]:
+                    for i in range(a, z + 1):
+                        et[starts[k] + i - 1] = 0
         delta = [1.0, 0.5, 1.0, 0.5, 0.5][idx % 5]      # a fractional grid step: levels are not whole millimetres
         wf, outc = HY.run_workflow(beh, dt, "UTC", P.epoch_of(2015, 9, 1), delta, wd, "s%d" % idx,
                                    et_of=lambda i: et.get(i, 13) / float(ET_UNIT))
-        ident = "beh%d dt%d poly%s curvature %g%s" % (idx, dt, poly, curvature,
+        ident = "beh%d dt%d poly%s curvature %g%s%s" % (idx, dt, poly, curvature, " ET 0 in recessions" if zero_et else "",
                                                       ["", " Sy spline / T PEATCLSM", " Sy PEATCLSM / T spline"][mix])
         if not (outc.get("rise") and outc["rise"].ok and outc.get("recession") and outc["recession"].ok):
             return idx, [], [(ident, "dataset preparation failed: %s" % {k: v.describe() for k, v in outc.items()}, None)]
